@@ -224,6 +224,14 @@ def strip_comments(text):
     return ''.join(out)
 
 
+class SpanningEntry(AnalysisBroken):
+    """an initialiser entry continues across a change of presence condition: a row whose separating comma
+    is missing (or sits inside another row's guard) merges with its neighbour in some configurations"""
+    def __init__(self, path, line, sofar, lit):
+        AnalysisBroken.__init__(self, '%s:%d: initialiser entry spans lines with different presence conditions' % (path, line))
+        self.path, self.line, self.sofar, self.lit = path, line, sofar, lit
+
+
 class PresenceMap:
     """line number (1-based) -> presence condition, plus the code text of each line
     with comments and directives blanked."""
@@ -318,8 +326,7 @@ class PresenceMap:
                         if cur_cond is None:
                             cur_cond, cur_line = self.cond[num], num
                         elif self.cond[num] != cur_cond:
-                            raise AnalysisBroken('%s:%d: initialiser entry spans lines with '
-                                                 'different presence conditions' % (self.path, num))
+                            raise SpanningEntry(self.path, num, cur, lit)
                         cur += lit
                     i = j + 1
                     continue
